@@ -174,7 +174,76 @@ pub fn exhaustive(ctx: &Ctx, rep: &mut Report) {
     rep.note("exhaustive over all 65536 i16 conversions, all q residues (neg, inverse, centred), all q^2 pairs (add, sub, mul, multiply)".into());
 }
 
+/// Concurrency stress: many threads run the field operations at the same time on DIFFERENT
+/// operands and every result is checked. The crate has no shared state today; this leg
+/// guards against a memo / scratch value shared between threads.
+pub fn concurrent(ctx: &Ctx, rep: &mut Report) {
+    let inv_tab: Vec<i16> = (0..Q).map(|b| if b == 0 { 0 } else { crate::refs::spec::powm(b, Q - 2) as i16 }).collect();
+    let threads = ncpu().max(4);
+    let per = ctx.sz(3_000_000, 60_000_000);
+    let barrier = std::sync::Barrier::new(threads);
+    let out = std::sync::Mutex::new(Report::new());
+    std::thread::scope(|sc| {
+        for t in 0..threads {
+            let (inv_tab, barrier, out) = (&inv_tab, &barrier, &out);
+            sc.spawn(move || {
+                let mut rep = Report::new();
+                // cheap per-thread LCG so that the loop is dominated by the operation under test
+                let mut x: u64 = 0x9E3779B97F4A7C15u64.wrapping_mul(t as u64 + 1) ^ ctx.seed;
+                barrier.wait();
+                let r = monitored(|| {
+                    let mut bad: Vec<(i16, i16, i16)> = vec![];
+                    let mut wrong = 0u64;
+                    for i in 0..per {
+                        x = x.wrapping_mul(6364136223846793005).wrapping_add(1442695040888963407);
+                        // phases: hammer few residues (maximises same-time collisions), then all
+                        let a = if i % 4 == 0 { ((x >> 33) % 8 + 1 + t as u64) as i16 } else { ((x >> 33) % Q as u64) as i16 };
+                        let got = vh::felt_inv(a);
+                        if got != inv_tab[a as usize] {
+                            wrong += 1;
+                            if bad.len() < 3 {
+                                bad.push((a, got, inv_tab[a as usize]));
+                            }
+                        }
+                        if i % 16 == 0 {
+                            let b = ((x >> 20) % (Q as u64 - 1) + 1) as i16;
+                            let d = vh::felt_div(a, b);
+                            if d as i64 != (a as i64 * inv_tab[b as usize] as i64) % Q {
+                                wrong += 1;
+                                if bad.len() < 3 {
+                                    bad.push((a, b, d));
+                                }
+                            }
+                        }
+                    }
+                    (wrong, bad)
+                });
+                rep.evaluations += per as u64;
+                match r {
+                    Err(p) => rep.violation(&format!("panic:concurrent@{}", short_loc(&p.location)), p.message.clone(), json!({"op": "concurrent"})),
+                    Ok((wrong, bad)) => {
+                        if wrong > 0 {
+                            rep.violation("inv:wrong-under-concurrency", format!("{} wrong inverses/quotients among {} calls while {} threads invert different residues at the same time (first: {:?})", wrong, per, threads, bad), json!({"op": "concurrent", "threads": threads}));
+                        }
+                    }
+                }
+                rep.count("concurrent_calls", per as u64);
+                rep.nontrivial(format!("thread|{}", t).as_bytes());
+                out.lock().unwrap().merge(rep);
+            });
+        }
+    });
+    rep.merge(out.into_inner().unwrap());
+    rep.sample(json!({"threads": threads, "calls_per_thread": per, "operations": "inverse_or_zero and division on different operands at the same time"}));
+    rep.require("concurrent_calls", 1_000_000);
+}
+
 pub fn replay(r: &Value) -> bool {
+    if r["op"] == "concurrent" {
+        println!("concurrency cases are replayed by re-running the leg");
+        crate::util::not_replayable();
+        return false;
+    }
     let a = r["a"].as_i64().unwrap_or(0) as i16;
     let b = r["b"].as_i64().unwrap_or(0) as i16;
     let mut rep = Report::new();
